@@ -29,7 +29,8 @@ def run(prop, tier, cov):
             ('same family with a transposing pair of nodes and cache probes on', dict(base, tt='TRUE', twins='OneTwin'), True, 2),
             ('legacy: no re-test after a child returns', dict(base, abort='FALSE', budget=2), False, 2),
             ('legacy: no fallback move', dict(base, fallback='FALSE', budget=1), False, 2)]
-    if tier == 'thorough':
+    big = tier == 'thorough' and prop in ('C11', 'C13')      # the 23 M-state configuration once per property it serves
+    if big:
         runs.insert(1, ('all trees B=2 D=3 evals {0,1}, cache probes off, budget 0 and none',
                         dict(base, D=3, vals='Vals2', budget=0), True, 14))
     cov.setdefault('mc', {})
@@ -40,7 +41,7 @@ def run(prop, tier, cov):
                           workers=workers, timeout=6000)
         return r, res
     # the big runs one after the other, the small ones together
-    nbig = 2 if tier == 'thorough' else 1
+    nbig = 2 if big else 1
     results = [one(r) for r in runs[:nbig]]
     with cf.ThreadPoolExecutor(max_workers=4) as ex:
         results += list(ex.map(one, runs[nbig:]))
